@@ -249,8 +249,27 @@ func c06MatchAssembly(r *core.Run, rule string, root []*ssa.Function, ro *muxRol
 					}
 					// sites without params loop are fine only if none exists below
 				}
-				r.Check(good && rebOK, rule, core.FuncName(fn), "accept-site-writes-node+mountIdx:"+valDesc(st.Val), p.InstrPos(st),
-					"the match record's node and mount index are written together and the params are rebased with that same mount index", fmt.Sprintf("accept site stores the node without (exactly one) mount index store next to it (%d), or rebases params with a different value (sameValue=%v): after backtracking out of a mount the record would carry a stale mount index", len(ms), rebOK))
+				// one obligation per accept site of the matcher (a shared helper serves several sites)
+				sites := p.Lift(st, mn)
+				if len(sites) == 0 {
+					sites = []ssa.Instruction{st}
+				}
+				for k, site := range sites {
+					what := "accept-site-writes-node+mountIdx:" + valDesc(st.Val)
+					if site != ssa.Instruction(st) {
+						vd := ""
+						if sc, ok := site.(ssa.CallInstruction); ok {
+							for i, prm := range fn.Params {
+								if ssa.Value(prm) == st.Val && i < len(sc.Common().Args) {
+									vd = valDesc(sc.Common().Args[i])
+								}
+							}
+						}
+						what = fmt.Sprintf("accept-site-writes-node+mountIdx:%s@site%d", vd, k)
+					}
+					r.Check(good && rebOK, rule, core.FuncName(fn), what, p.InstrPos(site),
+						"the match record's node and mount index are written together and the params are rebased with that same mount index", fmt.Sprintf("accept site stores the node without (exactly one) mount index store next to it (%d), or rebases params with a different value (sameValue=%v): after backtracking out of a mount the record would carry a stale mount index", len(ms), rebOK))
+				}
 			}
 			for _, st := range ms {
 				if len(ns) == 0 {
